@@ -2,6 +2,9 @@ ID = "C19"
 TESTS = [
     # Scripted: three identical duplicates waiting behind an OPEN parked before / after the directory call; open-owner and
     # lock-owner seqids wrapping from 2^32-1 to 1 (0 rejected as out of order), with retransmissions across the wrap.
+    # STATE ID seqids at the wrap (hook VerifSetNFS40StateIDSeqID): OPEN, OPEN_CONFIRM, open state ID placed at 2^32-1, CLOSE,
+    # identical CLOSE (seeded change C19-6A); the same for LOCKU, LOCK (existing lock-owner), OPEN_DOWNGRADE and OPEN (upgrade),
+    # with old / future state ID seqids on both sides of the wrap (OLD_STATEID / BAD_STATEID modulo 2^32).
     T("nfs40sim", "TestC19NFS40Regress.*",
       {"checks": 1, "shards": 1, "timeout": 120},
       {"checks": 1, "shards": 1, "timeout": 120}, plain=True),
